@@ -41,6 +41,12 @@ class InvalidSpec(Exception):
     pass
 
 
+def _ek(key):
+    """equality class of a set element / mapping key as Python sees it
+    (0.0 and -0.0 are one key; the key object itself is hashable)"""
+    return key
+
+
 def mkuuid(node_id, salt):
     v = (((node_id + 1) * 0x9E3779B1) ^ salt) & 0xFFFFFFFF
     return uuid.UUID(int=(v << 96) | (v << 40) | (node_id & 0xFFFFFFFF) | (1 << 39))
@@ -388,7 +394,7 @@ def resolve_aux(tree, jv, node_hex):
         out = [[resolve_aux(subs[0], k, node_hex), resolve_aux(subs[1], v, node_hex)] for k, v in jv]
         seen, keep = set(), []
         for k, v in out:
-            kk = repr(auxgen.eqkey(subs[0], k))
+            kk = _ek(auxgen.eqkey(subs[0], k))
             if kk not in seen:
                 seen.add(kk)
                 keep.append([k, v])
@@ -403,7 +409,7 @@ def resolve_aux(tree, jv, node_hex):
 def _dedupe(tree, items):
     seen, keep = set(), []
     for x in items:
-        k = repr(auxgen.eqkey(tree, x))
+        k = _ek(auxgen.eqkey(tree, x))
         if k not in seen:
             seen.add(k)
             keep.append(x)
